@@ -698,10 +698,68 @@ EMPTY_CTORS = ("core::default::Default::default", "alloc::vec::Vec::<T>::new", "
                "alloc::collections::btree::set::BTreeSet::<T>::new")
 
 
+def _structural_eq(prog, imp, adt):
+    """a hand-written `PartialEq` for a struct that computes what the derive computes: the conjunction of `self.f == other.f` over
+    ALL fields (any order, any spelling of the short-circuit), decided on the path rows of `eq`: a path returns false only after a
+    field comparison came out false, and true (or the last comparison) only after every other field compared equal"""
+    from lib.guards import path_rows
+    fields = sorted(fd["name"] for fd in adt["variants"][0]["fields"])
+    key = next((it["path"] for it in imp.get("items", []) if it["name"] == "eq"), None)
+    f = prog.fns.get(key)
+    if f is None or not f.blocks or any(it["name"] == "ne" for it in imp.get("items", [])):
+        return False
+    pv = Prov(f)
+    if pv.effects():
+        return False
+
+    def fld(t):
+        if not (is_call(t) and (t[1].endswith("PartialEq>::eq") or t[1] == "core::cmp::PartialEq::eq") and len(t[2]) == 2):
+            return None
+        names = []
+        for i, a in enumerate(t[2]):
+            while a[0] == "ref":
+                a = a[1]
+            if not (a[0] == "field" and a[1] == ("deref", ("param", i))):
+                return None
+            names.append(a[2])
+        return names[0] if names[0] == names[1] else None
+    try:
+        rows = path_rows(f, pv)
+    except Exception:
+        return False
+    if not rows:
+        return False
+    for r in rows:
+        known = {}
+        for c in r["conds"]:
+            x = fld(c[0])
+            if x is None:
+                return False
+            v = True if (c[1] == "ne" and c[2] in ((0,), (False,))) or (c[1] == "eq" and c[2] in (1, True)) else \
+                False if (c[1] == "eq" and c[2] in (0, False)) else None
+            if v is None or known.get(x, v) != v:
+                return False
+            known[x] = v
+        t = r["term"]
+        if any(v is False for v in known.values()):
+            if t != ("const", False):
+                return False
+        elif t == ("const", True):
+            if sorted(known) != fields:
+                return False
+        else:
+            x = fld(t)
+            if x is None or sorted(set(known) | {x}) != fields:
+                return False
+    return True
+
+
 def _structural_impl(prog, imp, adt):
     """a hand-written `Clone` / `Default` for a struct that is literally what the derive generates: every field cloned from the same
     field of self / every field its empty value"""
     tr = imp.get("trait")
+    if len(adt.get("variants", [])) == 1 and tr == "core::cmp::PartialEq":
+        return _structural_eq(prog, imp, adt)
     if len(adt.get("variants", [])) != 1 or tr not in ("core::clone::Clone", "core::default::Default"):
         return False
     fields = [fd["name"] for fd in adt["variants"][0]["fields"]]
